@@ -396,36 +396,38 @@ def compile (cfg : Cfg) (d : Deco) : RNode → List Op
   | .frag n => [.frag n]
   | .box st k kids =>
     let se := sizeOf d cfg.minWrap (.box st k kids)
-    let body := compileList cfg d kids
+    -- the children's program; a thunk, because the list arms compile the children themselves (`compileItems`)
+    -- and Lean evaluates a plain `let` eagerly: an unused copy would double the work at every list level
+    let body (_ : Unit) : List Op := compileList cfg d kids
     let inner : List Op :=
       match k with
-      | .container => body
-      | .link href => [.startLink href] ++ body ++ [.endLink]
-      | .em => [.startAnn .em d.emStart false] ++ body ++ [.endAnn d.emEnd false]
-      | .strong => [.startAnn .strong d.strongStart false] ++ body ++ [.endAnn d.strongEnd false]
-      | .strike => [.startAnn .strike d.strikeStart true] ++ body ++ [.endAnn d.strikeEnd true]
-      | .code => [.startAnn .code d.codeStart false] ++ body ++ [.endAnn d.codeEnd false]
-      | .block | .li => [.startBlock] ++ body ++ [.endBlock]
+      | .container => body ()
+      | .link href => [.startLink href] ++ body () ++ [.endLink]
+      | .em => [.startAnn .em d.emStart false] ++ body () ++ [.endAnn d.emEnd false]
+      | .strong => [.startAnn .strong d.strongStart false] ++ body () ++ [.endAnn d.strongEnd false]
+      | .strike => [.startAnn .strike d.strikeStart true] ++ body () ++ [.endAnn d.strikeEnd true]
+      | .code => [.startAnn .code d.codeStart false] ++ body () ++ [.endAnn d.codeEnd false]
+      | .block | .li => [.startBlock] ++ body () ++ [.endBlock]
       | .header lvl =>
         let p := d.headerPrefix lvl
-        [.sub se.prefixSize (se.minW - se.prefixSize) p p true body]
-      | .div => [.newLine] ++ body ++ [.newLine]
+        [.sub se.prefixSize (se.minW - se.prefixSize) p p true (body ())]
+      | .div => [.newLine] ++ body () ++ [.newLine]
       | .quote =>
         let p := d.quotePrefix
-        [.sub (dispW p) (se.minW - dispW p) p p true body]
+        [.sub (dispW p) (se.minW - dispW p) p p true (body ())]
       | .ul =>
         let p := d.ulPrefix
         compileItems cfg d (dispW p) (se.minW - dispW p) (fun _ => p) (List.replicate (dispW p) spaceCh) 0 kids
       | .ol start =>
         let pw := olPrefixSize d start kids.length
         compileItems cfg d pw (se.minW - se.prefixSize) (fun i => padTo (d.olPrefix (olItemNumber start i)) pw) (List.replicate pw spaceCh) 0 kids
-      | .dl => [.startBlock] ++ body
-      | .dt => [.newLine, .startAnn .em d.emStart false] ++ body ++ [.endAnn d.emEnd false]
-      | .dd => [.sub 2 (se.minW - 2) (strCh "  ") (strCh "  ") false body]
+      | .dl => [.startBlock] ++ body ()
+      | .dt => [.newLine, .startAnn .em d.emStart false] ++ body () ++ [.endAnn d.emEnd false]
+      | .dd => [.sub 2 (se.minW - 2) (strCh "  ") (strCh "  ") false (body ())]
       | .sup =>
         match supDigits kids with
         | some ds => [.text ds]
-        | none => [.startAnn .dflt d.supStart false] ++ body ++ [.endAnn d.supEnd false]
+        | none => [.startAnn .dflt d.supStart false] ++ body () ++ [.endAnn d.supEnd false]
     styleOpen d st ++ inner ++ styleClose d st
   | .cell st _ kids => styleOpen d st ++ compileList cfg d kids ++ styleClose d st     -- only via compileCells
   | .row _ _ => []
